@@ -644,11 +644,11 @@ void a_complex_atan_(a_complex *ctx)
         {
             if (imag > 1)
             {
-                ctx->real = +A_REAL_PI;
+                ctx->real = +A_REAL_PI_2;
             }
             else if (imag < -1)
             {
-                ctx->real = -A_REAL_PI;
+                ctx->real = -A_REAL_PI_2;
             }
             else
             {
